@@ -27,7 +27,7 @@ ASSUMPTIONS = [
     "and only the plain register weight when the addresses differ",
     "the store's own latency is read from the analysed instruction; the forwarding latency from the model file",
 ]
-MIN_NONTRIVIAL = {"quick": 400, "thorough": 4000}
+MIN_NONTRIVIAL = {"quick": 300, "thorough": 3000}
 
 X_BASES = ["rax", "rbx", "rsi"]
 X_IDX = ["rdi", "r8", "r9"]
